@@ -49,6 +49,7 @@ import (
 	"strconv"
 	"strings"
 	"sync"
+	"sync/atomic"
 	"syscall"
 	"time"
 
@@ -540,6 +541,25 @@ func stripAnn(ws []string) []string {
 	return o
 }
 
+// ---- scheduling-lag monitor: on an overloaded machine timers (the implementation's and the harness's) run late; the
+// "fires within a generous bound" side of the check scales its bound with the lag actually observed, so that load can
+// delay a verdict but never turn into a false c16-missed
+var lagRecentUs int64
+
+func lagMonitor() {
+	for {
+		t0 := time.Now()
+		time.Sleep(2 * time.Millisecond)
+		lag := int64(time.Since(t0)/time.Microsecond) - 2000
+		old := atomic.LoadInt64(&lagRecentUs)
+		dec := old - old/64
+		if lag > dec {
+			dec = lag
+		}
+		atomic.StoreInt64(&lagRecentUs, dec)
+	}
+}
+
 func (e *env) sleepUntil(ms int) {
 	d := time.Duration(ms)*time.Millisecond - time.Since(e.start)
 	if d > 0 {
@@ -583,6 +603,14 @@ func runCase(cr *caseRun) {
 		e.sleepUntil(atoi(field(ws, "t")))
 		if ws[0] == "Q" {
 			g := int64(atoi(field(ws, "g"))) * 1000
+			if l := 40 * atomic.LoadInt64(&lagRecentUs); l > g {
+				g = (l/1000 + 1) * 1000 // overloaded machine: a more generous bound, passed on to the model
+				for i, w := range ws {
+					if strings.HasPrefix(w, "g=") {
+						ws[i] = fmt.Sprintf("g=%d", g/1000)
+					}
+				}
+			}
 			// never observe before every deadline in force had its generous bound
 			for d := 0; d < 2; d++ {
 				if e.tr.hi[d] >= 0 {
@@ -1133,6 +1161,7 @@ func setupE2E(e *env, kind string, kaMs, wtMs int) (func(ws []string), func()) {
 }
 
 func exec(e *lp.Exec) {
+	go lagMonitor()
 	logging.SetLevel(logging.LevelNone)
 	vsys.VirtualAll = true
 	nbio.MaxOpenFiles = 19999
